@@ -58,6 +58,10 @@ type Plan struct {
 	// client's peer-adjusted clock moves back and the headers it already
 	// accepted look "too new" to the block sanity check during GetBlock.
 	Skew bool `json:",omitempty"`
+	// Layout / Addrs: where the peers live (addrs.go): IPv4, IPv6 inside one
+	// /64 or in different /64s, IPv4 told to the client as ::ffff:a.b.c.d.
+	Layout string
+	Addrs  []HostAddr
 }
 
 func mod(a, n int) int { return ((a % n) + n) % n }
@@ -103,6 +107,17 @@ func selFor(k Kind, r *rand.Rand, noop bool) Sel {
 
 // MakePlan derives scenario k of the case list.
 func MakePlan(seed int64, k int) Plan {
+	p := makePlan(seed, k)
+	// Placement of the peers: its own random stream, so that the calls and
+	// answer streams of scenario k do not depend on it. The layouts rotate
+	// over the scenarios.
+	layout := RotaLayout(k + int(seed))
+	p.Layout = LayoutName(layout)
+	p.Addrs = MakeAddrs(rand.New(rand.NewSource(seed*9_000_011+int64(k)*32_452_843+606)), p.Peers, layout)
+	return p
+}
+
+func makePlan(seed int64, k int) Plan {
 	r := rand.New(rand.NewSource(seed*1_000_003 + int64(k)*7919 + 606))
 	p := Plan{Seed: seed*1_000_003 + int64(k), K: k, Mode: "director"}
 	p.ChainLen = 60 + r.Intn(241)
@@ -424,8 +439,8 @@ func (p Plan) Describe() string {
 	for _, ro := range p.Roles {
 		ks = append(ks, "role:"+ro[0].String())
 	}
-	return fmt.Sprintf("%s peers=%d nohonest=%v smallcache=%v timeouts=%d [%s]",
-		p.Mode, p.Peers, p.NoHonest, p.SmallCache, p.Timeouts, strings.Join(ks, ","))
+	return fmt.Sprintf("%s peers=%d addrs=%s nohonest=%v smallcache=%v timeouts=%d [%s]",
+		p.Mode, p.Peers, p.Layout, p.NoHonest, p.SmallCache, p.Timeouts, strings.Join(ks, ","))
 }
 
 // NumCalls counts the calls of the plan.
